@@ -420,9 +420,25 @@ fn compare_all(db: &Arc<LocustDB>, http: &mut Http, sql: &str, rng: &mut Rng, ou
         Err(e) => fail(out, "no_response", "/multi_query_cols", e),
     }
     // binary: plain, xor, xor + mantissa (+ full precision for one column)
-    let float_cols: Vec<String> = emb.columns.iter().filter(|(_, c)| matches!(c, BasicTypeColumn::Float(_))).map(|(n, _)| n.clone()).collect();
+    // columns that carry floats: dense float columns and nullable ones (which arrive as Mixed float+NULL)
+    let float_cols: Vec<String> = emb
+        .columns
+        .iter()
+        .filter(|(_, c)| match c {
+            BasicTypeColumn::Float(_) => true,
+            BasicTypeColumn::Mixed(xs) => xs.iter().any(|v| matches!(crate::drive::rawval(v), V::Float(_))),
+            _ => false,
+        })
+        .map(|(n, _)| n.clone())
+        .collect();
     let mantissa = *rng.pick(&[0u32, 3, 10, 23, 52]);
-    let full: HashSet<String> = float_cols.iter().take(1).cloned().collect();
+    // every second float-carrying column is requested at full precision (random phase), the others reduced
+    let phase = rng.below(2);
+    let full: HashSet<String> = float_cols.iter().enumerate().filter(|(i, _)| i % 2 == phase).map(|(_, n)| n.clone()).collect();
+    for n in &full {
+        let nullable = emb.columns.iter().any(|(cn, c)| cn == n && matches!(c, BasicTypeColumn::Mixed(_)));
+        out.set("full_precision_column_kinds", if nullable { "nullable_float" } else { "dense_float" }.to_string());
+    }
     for (label, opts) in [
         ("binary", EncodingOpts { xor_float_compression: false, mantissa: None, full_precision_cols: HashSet::new() }),
         ("binary+xor", EncodingOpts { xor_float_compression: true, mantissa: None, full_precision_cols: HashSet::new() }),
